@@ -526,6 +526,7 @@ def run(ctx):
             return [Outcome(ret=TOP)]
 
         prim_control_rldef = prim_control_readint = prim_control_readline = prim_stralloc_cats = prim_stralloc_cat = prim_stralloc_0 = prim_stralloc_copys = prim_stralloc_append = _ok1
+        prim_stralloc_catb = prim_stralloc_copyb = prim_stralloc_ready = prim_stralloc_readyplus = _ok1
         prim_control_init = prim_chdir = _ok0
         prim_log1 = prim_log2 = prim_log3 = prim_nomem = _n
 
